@@ -49,6 +49,13 @@ CLAIMED = {
             "symbolic execution of the real kdq-tree partitioner with z3 on arrays of symbolic points (ties and points on a "
             "midpoint are solver-chosen): every tree shape within the bound is walked and cell membership, counts, split rule, "
             "fill/accumulate/reset semantics, the +0.5 correction lemma and the arguments of the divergence calls are proved"),
+    "C09": ("DESIGN.md 7/C09",
+            "decision-logic runs stub the partitioner (C08 verifies it) with divergence / critical value as uninterpreted "
+            "functions of the rows they are computed from; critical-value runs record random.choice / entropy / quantile; "
+            "statistical quality of the bootstrap bound not addressed",
+            "symbolic execution of the real kdq-tree detectors with z3: bounded histories compared with the state machine of "
+            "the statement (which rows reach build/fill, persistence counted in a row, drifted batch becomes the reference) and "
+            "argument obligations on the real _get_critical_kld (draw size and distribution, halves, quantile level 1-alpha)"),
     "C12": ("DESIGN.md 7/C12",
             "members modelled as the most general objects with the detector interface (arbitrary states/recommendations after "
             "every call); selectors as tagging functions; real-member runs reuse the kernel stubs of C01/C02",
